@@ -6,18 +6,21 @@ from ..core import main
 SITE = "mlmodel.sklearn_text"
 WORDS = {1: "aa", 2: "aaa", 3: "aab", 4: "bb"}          # string order = integer order, aa is a prefix of aaa / aab
 CODE = {v: k for k, v in WORDS.items()}
+# with lowercase=False an upper-case word is a token of its own (upper case sorts before lower case)
+WORDS8 = {1: "AA", 2: "AAA", 3: "AAB", 4: "BB", 5: "aa", 6: "aaa", 7: "aab", 8: "bb"}
+CODE8 = {v: k for k, v in WORDS8.items()}
 
 
-def enc_gram(g):
+def enc_gram(g, code=CODE):
     """traceable gram (tuple of str) -> list of ints; anything else (nested tuples, strings) -> [-1]."""
-    if isinstance(g, tuple) and all(isinstance(t, str) and t in CODE for t in g):
-        return [CODE[t] for t in g]
+    if isinstance(g, tuple) and all(isinstance(t, str) and t in code for t in g):
+        return [code[t] for t in g]
     return [-1]
 
 
-def dec_str(s):
+def dec_str(s, code=CODE):
     parts = s.split(" ")
-    return [CODE[p] for p in parts] if all(p in CODE for p in parts) else [-1]
+    return [code[p] for p in parts] if all(p in code for p in parts) else [-1]
 
 
 def grams_case(doc, stop, minn, maxn):
@@ -40,29 +43,30 @@ def corpus_trace(tid, rng):
     from mlinsights.mlmodel import TraceableCountVectorizer, TraceableTfidfVectorizer
     from sklearn.feature_extraction.text import CountVectorizer, TfidfVectorizer
     ndocs = rng.randint(1, 4)
-    docs = [[rng.randint(1, 4) for _ in range(rng.choice([0, 1, 1, 2, 3, 4, 6]))] for _ in range(ndocs)]
+    lowercase = rng.random() < 0.6
+    words, code, top = (WORDS, CODE, 4) if lowercase else (WORDS8, CODE8, 8)
+    docs = [[rng.randint(1, top) for _ in range(rng.choice([0, 1, 1, 2, 3, 4, 6]))] for _ in range(ndocs)]
     if not any(docs):
         docs[0] = [1, 2]
     minn = rng.randint(1, 3)
     maxn = rng.randint(minn, 3)
-    stop = sorted(rng.sample([1, 2, 3, 4], rng.choice([0, 0, 1, 2])))
-    lowercase = True
+    stop = sorted(rng.sample(list(range(1, top + 1)), rng.choice([0, 0, 1, 2])))
     binary = rng.random() < 0.3
     pruned = rng.random() < 0.35
-    kw = dict(ngram_range=(minn, maxn), stop_words=[WORDS[t] for t in stop] or None, lowercase=lowercase, binary=binary)
+    kw = dict(ngram_range=(minn, maxn), stop_words=[words[t] for t in stop] or None, lowercase=lowercase, binary=binary)
     if pruned:
         kw.update(min_df=rng.choice([1, 2]), max_df=rng.choice([1.0, 0.75]), max_features=rng.choice([None, 3, 5]))
-    up = lambda w: w.upper() if rng.random() < 0.3 else w
-    corpus = [" ".join(up(WORDS[t]) for t in d) + ("." if rng.random() < 0.3 else "") for d in docs]
+    up = lambda w: w.upper() if lowercase and rng.random() < 0.3 else w
+    corpus = [" ".join(up(words[t]) for t in d) + ("." if rng.random() < 0.3 else "") for d in docs]
     t = dict(id=tid, kind="corpus", docs=docs, stop=stop, minn=minn, maxn=maxn, binary=binary, pruned=pruned,
-             site=SITE, sig=_sig(stop, minn, maxn) + (" pruned" if pruned else ""), corpus=corpus, options={k: repr(v) for k, v in kw.items()})
+             site=SITE, sig=_sig(stop, minn, maxn) + (" pruned" if pruned else "") + ("" if lowercase else " lowercase=False"), corpus=corpus, options={k: repr(v) for k, v in kw.items()})
     try:
         sv = CountVectorizer(**kw).fit(corpus)
     except ValueError:
         return None          # empty vocabulary / pruning removed everything: scikit-learn refuses, nothing to compare
     tv = TraceableCountVectorizer(**kw).fit(corpus)
-    t["tvocab"] = sorted(([dict(gram=enc_gram(g), col=int(c)) for g, c in tv.vocabulary_.items()]), key=lambda e: e["col"])
-    t["svocab"] = sorted(([dict(gram=dec_str(s), col=int(c)) for s, c in sv.vocabulary_.items()]), key=lambda e: e["col"])
+    t["tvocab"] = sorted(([dict(gram=enc_gram(g, code), col=int(c)) for g, c in tv.vocabulary_.items()]), key=lambda e: e["col"])
+    t["svocab"] = sorted(([dict(gram=dec_str(s, code), col=int(c)) for s, c in sv.vocabulary_.items()]), key=lambda e: e["col"])
     t["tmat"] = [[int(v) for v in row] for row in tv.transform(corpus).toarray()]
     t["smat"] = [[int(v) for v in row] for row in sv.transform(corpus).toarray()]
     a = TraceableTfidfVectorizer(**kw).fit(corpus).transform(corpus).toarray()
